@@ -957,10 +957,138 @@ class SStr:
         return self, "", ""
 
     def rpartition(self, sep):
-        raise EngineError("rpartition")
+        self._noatom("rpartition")
+        sep_s = SStr.of(sep)
+        if len(sep_s.cs) != 1 or not isinstance(sep_s.cs[0], int):
+            raise EngineError("rpartition on a multi-character or symbolic separator")
+        for i in range(len(self.cs) - 1, -1, -1):
+            if char_in(self.cs[i], {sep_s.cs[0]}):
+                return SStr.mk(self.cs[:i]), sep, SStr.mk(self.cs[i + 1:])
+        return "", "", self
+
+    def rsplit(self, sep=None, maxsplit=-1):
+        if maxsplit == -1:
+            return self.split(sep)
+        self._noatom("rsplit")
+        if sep is None:
+            raise EngineError("rsplit(None, maxsplit)")
+        sep_s = SStr.of(sep)
+        if len(sep_s.cs) != 1 or not isinstance(sep_s.cs[0], int):
+            raise EngineError("rsplit on a multi-character or symbolic separator")
+        out, end, n = [], len(self.cs), 0
+        for i in range(len(self.cs) - 1, -1, -1):
+            if n >= maxsplit:
+                break
+            if char_in(self.cs[i], {sep_s.cs[0]}):
+                out.append(SStr.mk(self.cs[i + 1:end]))
+                end = i
+                n += 1
+        out.append(SStr.mk(self.cs[:end]))
+        return out[::-1]
+
+    def splitlines(self, keepends=False):
+        self._noatom("splitlines")
+        brk = frozenset((10, 11, 12, 13, 28, 29, 30, 133))
+        out, cur, i = [], [], 0
+        cs = self.cs
+        while i < len(cs):
+            c = cs[i]
+            if char_in(c, brk):
+                k = 1
+                if char_in(c, {13}) and i + 1 < len(cs) and char_in(cs[i + 1], {10}):
+                    k = 2
+                out.append(SStr.mk(cur + (list(cs[i:i + k]) if keepends else [])))
+                cur = []
+                i += k
+            else:
+                cur.append(c)
+                i += 1
+        if cur:
+            out.append(SStr.mk(cur))
+        return out
+
+    def rfind(self, sub, start=0):
+        self._noatom("rfind")
+        sub_s = SStr.of(sub)
+        n = len(sub_s.cs)
+        for i in range(len(self.cs) - n, start - 1, -1):
+            if EX.branch(SStr(self.cs[i:i + n]).eq_expr(sub_s)):
+                return i
+        return -1
+
+    def index(self, sub, start=0):
+        r = self.find(sub, start)
+        if r == -1:
+            raise ValueError("substring not found")
+        return r
+
+    def rindex(self, sub, start=0):
+        r = self.rfind(sub, start)
+        if r == -1:
+            raise ValueError("substring not found")
+        return r
+
+    def count(self, sub):
+        self._noatom("count")
+        sub_s = SStr.of(sub)
+        n = len(sub_s.cs)
+        if n == 0:
+            return len(self.cs) + 1
+        i, k = 0, 0
+        while i + n <= len(self.cs):
+            if EX.branch(SStr(self.cs[i:i + n]).eq_expr(sub_s)):
+                k += 1
+                i += n
+            else:
+                i += 1
+        return k
 
     def replace(self, old, new, count=-1):
-        raise EngineError("str.replace on a symbolic string")
+        self._noatom("replace")
+        old_s, new_s = SStr.of(old), SStr.of(new)
+        n = len(old_s.cs)
+        if n == 0:
+            raise EngineError("str.replace of the empty string")
+        out, i, k = [], 0, 0
+        while i < len(self.cs):
+            if (count < 0 or k < count) and i + n <= len(self.cs) and EX.branch(SStr(self.cs[i:i + n]).eq_expr(old_s)):
+                out.extend(new_s.cs)
+                i += n
+                k += 1
+            else:
+                out.append(self.cs[i])
+                i += 1
+        return SStr.mk(out)
+
+    def removeprefix(self, p):
+        return SStr.mk(self.cs[len(SStr.of(p).cs):]) if (len(SStr.of(p).cs) and self.startswith(p)) else self
+
+    def removesuffix(self, p):
+        n = len(SStr.of(p).cs)
+        return SStr.mk(self.cs[:len(self.cs) - n]) if (n and self.endswith(p)) else self
+
+    def _pad(self, width, fill):
+        if isinstance(width, SInt):
+            raise EngineError("padding to a symbolic width")
+        f = SStr.of(fill)
+        if len(f.cs) != 1:
+            raise TypeError("The fill character must be exactly one character long")
+        return [f.cs[0]] * max(0, width - len(self.cs))
+
+    def rjust(self, width, fill=" "):
+        self._noatom("rjust")
+        return SStr.mk(self._pad(width, fill) + list(self.cs))
+
+    def ljust(self, width, fill=" "):
+        self._noatom("ljust")
+        return SStr.mk(list(self.cs) + self._pad(width, fill))
+
+    def zfill(self, width):
+        self._noatom("zfill")
+        pad = self._pad(width, "0")
+        if pad and self.cs and char_in(self.cs[0], {43, 45}):
+            return SStr.mk([self.cs[0]] + pad + list(self.cs[1:]))
+        return SStr.mk(pad + list(self.cs))
 
     # -- classification / case
     def _all_in(self, s):
@@ -1048,12 +1176,6 @@ class SStr:
 
     def format(self, *a, **k):
         raise EngineError("format with a symbolic template")
-
-    def zfill(self, n):
-        raise EngineError("zfill")
-
-    def count(self, sub):
-        raise EngineError("str.count on a symbolic string")
 
 
 _ATOM_CHARS = {"ipv4": "0123456789.", "ipv6": "0123456789abcdef:", "dec": "0123456789"}
@@ -1285,6 +1407,19 @@ class SInt:
             return SInt.mk(r, lo, hi)
         return SInt.mk(q, self.lo // o, self.hi // o)
 
+    def __abs__(self):
+        if self.lo >= 0:
+            return self
+        if self.hi < 0 or EX.branch(self._cmp_expr(0, "lt")):
+            return -self
+        return SInt(self.e, 0, self.hi, self.w) if self.hi >= 0 else self
+
+    def __round__(self, nd=None):
+        return self
+
+    def __pos__(self):
+        return self
+
     def __divmod__(self, o):
         return self._divmod(o, "div"), self._divmod(o, "mod")
 
@@ -1305,7 +1440,13 @@ class SInt:
                 num = SInt(num.e, 0, num.hi, num.w)     # proved non-negative on this path
             return SFloat(num, o.bit_length() - 1)
         raise EngineError("float division")
-    def __pow__(self, o): raise EngineError("pow")
+    def __pow__(self, o, mod=None):
+        if mod is not None or isinstance(o, SInt) or not isinstance(o, int) or o < 0 or o > 8:
+            raise EngineError("pow")
+        r = 1
+        for _ in range(o):
+            r = self * r
+        return r
 
     def _bit(self, o, op):
         o = SInt._coerce(o)
@@ -1388,7 +1529,14 @@ class SInt:
         raise EngineError("to_bytes of a symbolic integer")
 
     def bit_length(self):
-        raise EngineError("bit_length of a symbolic integer")
+        """number of bits of |x|: forked from the top (at most hi.bit_length() forks)"""
+        v = abs(self)
+        if isinstance(v, int):
+            return v.bit_length()
+        for n in range(max(v.hi, 0).bit_length(), 0, -1):
+            if EX.branch(v._cmp_expr(1 << (n - 1), "ge")):
+                return n
+        return 0
 
 
 class SFloat:
